@@ -102,7 +102,7 @@ class OnionWorld:
         for name in ("create_circuit", "send_data", "remove_circuit", "exit_return", "vanish", "node_remove_relay",
                      "node_remove_exit", "expect_quiet", "deliver", "lose", "dup", "tamper", "tamper_at", "tamper_header",
                      "splice", "inject", "adv_create", "adv_plain", "forge_destroy", "mangle_answer", "link_e2e",
-                     "send_e2e", "rp_forge", "transports_ready", "transport4_ready", "send_test", "join_resume", "cancel_ready"):
+                     "send_e2e", "rp_forge", "transports_ready", "transport4_ready", "send_test", "join_resume", "cancel_ready", "outside_nested"):
             setattr(self, name, self._stepper(getattr(self, name)))
 
     def _stepper(self, fn):
@@ -498,6 +498,20 @@ class OnionWorld:
         elif mode == "half":
             for n, c in self.pending_sockets():
                 self.transport4_ready(n, c)
+
+    def outside_nested(self, x, spec_cid, target):
+        """a host outside sends the exit's outside socket a datagram that is a tunnel-community DATA message naming circuit
+        `target`, with a forged origin and a payload (number 0) of its own"""
+        from ipv8.messaging.anonymization.payload import DataPayload
+        ov = self.ov[x]
+        sock = ov.exit_sockets[self.real_cid(spec_cid)]
+        pl = DataPayload(self.real_cid(target), ("0.0.0.0", 0), ("6.6.6.6", 666), self.payload(0))
+        data = ov.get_prefix() + bytes([1]) + ov.serializer.pack_serializable(pl)
+        for t in self.net.transports:
+            if t is sock.transport_ipv4:
+                t.inject(data, ("7.7.7.7", 777))
+        self.loop.drain()
+        return self.log("OutsideNested", x=x, cid=spec_cid, target=target)
 
     def exit_return(self, x, spec_cid, p):
         ov = self.ov[x]
